@@ -300,4 +300,21 @@ theorem detachReceiver_eq (w : World) (p s : Nat) :
       | none => w
       | some c => if c.sAtt then setC w { c with rAtt := false } else dropC w p s := rfl
 
+theorem detachSender_none {w : World} {p s : Nat} (h : getC w p s = none) : detachSender w p s = w := by
+  rw [detachSender_eq, h]
+theorem detachSender_keep {w : World} {p s : Nat} {c : Conn} (h : getC w p s = some c) (hr : c.rAtt = true) :
+    detachSender w p s = setC w { c with sAtt := false } := by
+  rw [detachSender_eq, h]; simp only; rw [if_pos hr]
+theorem detachSender_drop {w : World} {p s : Nat} {c : Conn} (h : getC w p s = some c) (hr : c.rAtt = false) :
+    detachSender w p s = dropC w p s := by
+  rw [detachSender_eq, h]; simp only; rw [if_neg (by simp [hr])]
+theorem detachReceiver_none {w : World} {p s : Nat} (h : getC w p s = none) : detachReceiver w p s = w := by
+  rw [detachReceiver_eq, h]
+theorem detachReceiver_keep {w : World} {p s : Nat} {c : Conn} (h : getC w p s = some c) (hr : c.sAtt = true) :
+    detachReceiver w p s = setC w { c with rAtt := false } := by
+  rw [detachReceiver_eq, h]; simp only; rw [if_pos hr]
+theorem detachReceiver_drop {w : World} {p s : Nat} {c : Conn} (h : getC w p s = some c) (hr : c.sAtt = false) :
+    detachReceiver w p s = dropC w p s := by
+  rw [detachReceiver_eq, h]; simp only; rw [if_neg (by simp [hr])]
+
 end Iox2.PubSub.C01P
